@@ -317,6 +317,37 @@ def check_cache_history(c, seq, universe='main'):
         c.check(r == exp, 'C18:cache:value' + cls, '%s returned %r, g returns %r' % (txt, r, exp), call)
 
 
+RESULT_KINDS = {'None': None, 'zero': 0, 'empty-string': '', 'empty-list': [], 'False': False, 'nan': float('nan'), 'tuple': (1, 2)}
+
+
+def check_cache_results(c, rkind, seq):
+    """a cached function whose result is None / falsy / NaN: seq is a history over the arguments {1, 2}; the function is evaluated once per
+    distinct argument and the first result (the very object) is returned thereafter, whatever the result is"""
+    from pyg_base._cache import cache_func
+    calls, made = [], {}
+
+    def g(a):
+        calls.append(a)
+        r = RESULT_KINDS[rkind]
+        made.setdefault(a, r if not isinstance(r, list) else list(r))
+        return made[a]
+    cg = cache_func(g)
+    call = dict(kind='cache_results', result=rkind, seq=list(seq))
+    seen = set()
+    for step, a in enumerate(seq):
+        before = len(calls)
+        txt = 'cached g returning %s, calls g(%s), at call #%d' % (rkind, '), g('.join(map(str, seq[:step + 1])), step)
+        try:
+            r = cg(a)
+        except Exception as e:      # noqa
+            c.check(False, 'C18:cache:raises:result-' + rkind, '%s raised %r' % (txt, e), call)
+            return
+        c.check(len(calls) - before == (0 if a in seen else 1), 'C18:cache:count:falsy-or-None-result',
+                '%s: g evaluated %d time(s), expected %d' % (txt, len(calls) - before, 0 if a in seen else 1), call)
+        c.check(r is made[a], 'C18:cache:value:falsy-or-None-result', '%s returned %r, the first result was %r' % (txt, r, made[a]), call)
+        seen.add(a)
+
+
 def _hkey(j):
     """a call of HASH_CALLS (JSON form) with every leaf replaced by its hash: equal for calls that differ only by hash-equal values"""
     if isinstance(j, (list, tuple)):
@@ -479,6 +510,7 @@ def run(tier, seed):
                   'every argument position (positional, keyword, default-carrying, *args, **kw, inside tuple/list/dict). try_*: the fallback of try_none/zero/nan/true/false/list/back '
                   'on every call of a raising twin; every call history of length <= %d over {f succeeds, f raises, f raises and the caller mutates the returned value in place, '
                   'the same on a second function wrapped by the same decorator} for mutable fallbacks (try_list, value=[..], {..}, set) and {succeeds, raises} for immutable ones. '
+                  'Cached functions returning None / 0 / "" / [] / False / NaN / a tuple: every call history of length <= 4 over two arguments (one evaluation per argument, the first result object thereafter). '
                   'Sibling functions (three functions made by one def in a factory - one code object, different defaults and closures - over 6 signatures): getargspec, getcallargs and every wrapper '
                   'follow the function at hand. A case is non-trivial when the call passes at least one argument; distinct by (shape, call, decorator)'
                   % (3 if quick else 4, 'those holding a twin pair' if quick else 'all', len(HASH_CALLS), 4 if quick else 5),
@@ -518,6 +550,12 @@ def run(tier, seed):
         for seq in itertools.product(range(len(CACHE_CALLS)), repeat=k):
             check_cache_history(c, seq)
             c.case(('cache', seq), nontrivial=len(set(seq)) < len(seq) or any(TWINS.get(i) in seq for i in seq), sample=take('cache', dict(history=[CACHE_CALLS[i] for i in seq]), len(seq) == 3 and seq[0] == 5 and seq[2] == 5))
+    # cached functions whose result is None / falsy / NaN: every history of length <= 4 over two arguments
+    for rkind in RESULT_KINDS:
+        for k in (2, 3, 4):
+            for seq in itertools.product((1, 2), repeat=k):
+                check_cache_results(c, rkind, seq)
+                c.case(('cache-results', rkind, seq), nontrivial=len(set(seq)) < len(seq), sample=take('cache-results', dict(result=rkind, history=list(seq)), rkind == 'None' and seq == (1, 1)))
     # cache histories over hash-equal but unequal arguments (every pair and, seeded in the quick tier, triples)
     nh = len(HASH_CALLS)
     for seq in itertools.product(range(nh), repeat=2):
@@ -559,6 +597,8 @@ def replay(call):
         check_cache_history(c, call['seq'], call.get('universe') or 'main')
     elif kind == 'try_seq':
         check_try_sequence(c, call['W'], call['seq'])
+    elif kind == 'cache_results':
+        check_cache_results(c, call['result'], call['seq'])
     elif kind == 'siblings':
         check_siblings(c, call['W'], call['sig'])
     else:
